@@ -9,6 +9,36 @@ CHECKS = {
    text="Every one of the 18 rule classes is constructed on generated valid profiles (uniform + 14 hostile classes + directed cases) while monitors watch the constructor outcome and every recorded round; random choices are scripted and the choice tree is enumerated up to a branch budget. Holds on the executions observed; nothing is claimed for inputs not run.",
    note="Trusted: the reference scorers / STV step relation used to decide when ValueError is allowed; 'terminates' is restated as <=2n+4 rounds and <=5e6 python calls. Known findings are suppressed only by mechanism predicates in vk/oracle.py.",
    ref="§4 C01"),
+ "C02": dict(
+   technique="trace validation: every recorded STV/IRV/SequentialRCV round checked against a nondeterministic reference step relation (exact rationals) that follows the observed choice at ties; transfer spy on the public transfer= parameter; scripted RNG tree",
+   text="Each recorded round of real STV-family runs must be one of the steps the C02 statement allows from the reference state (quota, who is elected, transfer factor, default election, elimination with initial-first-place tie filter), with tallies and candidate order recomputed independently. Holds on the traces observed.",
+   note="Trusted: vk/ref/stv.py as the reading of the statement. Runs whose constructor raises are judged by C01.",
+   ref="§4 C02"),
+ "C03": dict(
+   technique="runtime monitor: function-level conservation oracle on fractional_transfer/random_transfer; law-mode interposition on random.sample (population and k), forced subsets; per-round weight balance of real STV runs against the reference",
+   text="Direct transfer calls and whole STV runs are observed; outputs must be winner-free images of the inputs with exactly the prescribed weights, the random rule must hand random.sample exactly the unit expansion of the winner's transferable ballots with k = tally-threshold and return other ballots + the drawn subset; per round the weight drop must equal threshold*quota-elected + exhausted weight.",
+   note="Trusted: random.sample is a uniform k-subset (equal likelihood is decided at the primitive's arguments, not by frequency). Short piles (known finding of C01) only demand that no vote is created.",
+   ref="§4 C03"),
+ "C04": dict(
+   technique="differential runtime monitor: scoring utilities and Plurality/SNTV/Borda round records vs an exact-rational reference scorer; scripted tiebreak RNG",
+   text="score_profile_from_rankings / first_place_votes / mentions / borda_scores are called on generated profiles (tie groups and unlisted groups up to n, rational weights, int/Fraction/float vectors of all lengths) and compared exactly with the definition, including the per-ballot point sum; Plurality/SNTV/Borda outcomes must be top-m, descending, ties reported or recorded as broken.",
+   note="Trusted: vk/ref/scoring.py; float vector entries are read as their exact binary value.",
+   ref="§4 C04"),
+ "C05": dict(
+   technique="runtime monitor: acceptance-predicate oracle with single-limit smallest-margin mutations placed at every tuple position; reference totals and top-m",
+   text="Each of the five score-ballot rules is constructed on profiles that respect every limit (some exactly on it) and on profiles where one ballot violates exactly one limit by 1/10^6, is negative or has no scores; accepted <=> no exception, otherwise TypeError; totals and winners are recomputed exactly.",
+   note="Trusted: acceptance predicate evaluated on the stored (rounded to denominator<=10^6) scores.",
+   ref="§4 C05"),
+ "C06": dict(
+   technique="runtime monitor: reference margins, brute-force dominating tiers, defining tier properties asserted on the returned tiers (all bipartitions), Condorcet equivalences, DominatingSets/CondoBorda outcome oracle",
+   text="PairwiseComparisonGraph, DominatingSets and CondoBorda are run on profiles with cycles, nested cycles, pairwise ties, partial ballots and zero-vote candidates; margins, tiers and winners are compared with independent exact computations.",
+   note="n <= 6 (quick) / 7 (thorough): ballot_fill is factorial in the number of missing candidates.",
+   ref="§4 C06"),
+ "C07": dict(
+   technique="runtime monitor: Droop-proportionality axiom evaluated over all 2^n-1 coalitions on every finished STV run (both transfers, both modes), IRV majority; scripted tie-breaks, seeded/scripted random transfers",
+   text="For every finished run and every candidate subset S the solid-coalition weight is recomputed from the input and |elected ∩ S| >= min(floor(W/T),|S|,m) is asserted; workloads are biased to coalitions worth exactly k*T and k*T-1.",
+   note="Conservative coalition reading (first |S| positions exactly S). Runs that raise are judged by C01.",
+   ref="§4 C07"),
 }
 def main():
     checks = []
